@@ -116,6 +116,15 @@ MUTATIONS: list[tuple[str, list[str], str, list]] = [
      [(SIM, "        self._time_shift = None\n        self._errors = []\n        self._initialise_integrator()", "        self._time_shift = None\n        self._errors = []", 1)]),
     ("T3", ["C14"], "Scipy.integrate_time_course: math.isclose with rel_tol=1e-7 (`not math.isclose(time_points[0], self.t0, rel_tol=1e-7)`)",
      [(INT, "        if time_points[0] != self.t0:", "        if not __import__('math').isclose(time_points[0], self.t0, rel_tol=1e-7):", 1)]),
+    # the protocol TABLE (closing pass for seeded/C14-8): how a step's values get into its row
+    ("K1", ["C14"], "seeded/C14-8: make_protocol builds rows from list(pars.values()) under the first step's key order (recognised: RowsPositional)",
+     [("patch", "/verif/seeded/C14-8/patch.diff")]),
+    ("K2", ["C14"], "make_protocol: every step re-keyed by the first step's key order (`dict(zip(steps[0][1], pars.values()))`; unrecognised shape)",
+     [(INIT, "        data[t0] = pars\n", "        data[t0] = dict(zip(steps[0][1], pars.values()))\n", 1)]),
+    ("K3", ["C14"], "make_protocol: the table's columns sorted and the rows relabelled with the first step's key order "
+     "(`protocol = protocol[sorted(protocol.columns)]; protocol.columns = list(steps[0][1])`)",
+     [(INIT, "    protocol.index.name = \"Timedelta\"\n",
+       "    protocol.index.name = \"Timedelta\"\n    protocol = protocol[sorted(protocol.columns)]\n    protocol.columns = list(steps[0][1])\n", 1)]),
 ]
 
 
